@@ -114,7 +114,7 @@ def strictWorld (v1w : CheckV1.World) : CheckV1.World :=
 
 /-- why the answer `obs` of run `run` differs from the expected `want`: a known finding only when its precondition
 is present *and* the model reproduces the behaviour; anything else is "unexplained" (a regression) -/
-def diagnose (w : CheckV2.World) (v1w : CheckV1.World) (want obs : String) (run : String := "d1") : String :=
+def diagnose (w : CheckV2.World) (v1w : CheckV1.World) (want obs : String) (_run : String := "d1") : String :=
   if !(modelClasses w 2).contains obs then
     -- the weight2 / recursive strategies read through the same filtered iterator (bottomUp.buildIterator): an
     -- evaluation error is swallowed as soon as another tuple of the same read passed.  Dropping every tuple whose
